@@ -10,7 +10,7 @@ from .. import env
 from .. import gen, build, mcase, monitors
 
 ID = "C09"
-CASES = {"quick": 2400, "thorough": 150000}
+CASES = {"quick": 8000, "thorough": 200000}
 MIN_CASES_PER_SHARD = 40
 CASE_TIMEOUT = 40
 RULE = ("one case = generated map x trace x configuration (all families, non-emitting on/off, widths, avoid_goingback on/off, cut-offs incl. "
@@ -86,7 +86,7 @@ def check_case(ctx, case):
 
 
 TECHNIQUE = "runtime monitoring: invariant-at-a-hook, the whole live lattice is walked after every public call of generated operation histories"
-LEVEL_TEXT = ("2.4k (quick) / 150k (thorough) generated operation histories on real matchers; after each of the ~4 operations per history every "
+LEVEL_TEXT = ("{Q} (quick) / {T} (thorough) generated operation histories on real matchers; after each of the ~4 operations per history every "
               "lattice entry is checked for filing, predecessor identity and layer, monotone probability, length bookkeeping, probability range and "
               "liveness. Held-on-observed.")
 LEVEL_NOTE = "Trusted: the walker. Histories have at most 9 operations on traces of at most 9 observations."
